@@ -44,6 +44,11 @@ pub struct Case {
     /// first site (a sub-region reference, or a replicon linearised elsewhere)
     #[serde(default)]
     pub ref_trim: Option<u8>,
+    /// (reference mode) the reference also holds, behind a spacer at its end, an inverted partial copy of one site's
+    /// window (its left flank, the site and 7 more bases, reverse-complemented) that no sample has (a paralogue in
+    /// the reference strain)
+    #[serde(default)]
+    pub ref_paralog: Option<u8>,
 }
 
 fn case_strategy(with_ref: bool) -> BoxedStrategy<Case> {
@@ -57,10 +62,10 @@ fn case_strategy(with_ref: bool) -> BoxedStrategy<Case> {
         proptest::collection::vec((any::<u16>(), proptest::collection::vec(0u8..4, 2..10)), 1..6),
         proptest::collection::vec(any::<bool>(), 1..6),
         prop::sample::select(vec![1u8, 1, 2, 3, 4, 8]),
-        (prop::bool::weighted(0.3), prop::bool::weighted(0.3), any::<bool>(), any::<bool>(), prop_oneof![3 => Just(0u8), 2 => Just(1u8), 1 => Just(2u8), 1 => Just(3u8), 1 => Just(4u8)], prop_oneof![3 => Just(0u8), 1 => Just(1u8), 2 => Just(2u8)], prop::bool::weighted(0.15), prop_oneof![4 => Just(None), 1 => any::<u8>().prop_map(Some)]),
+        (prop::bool::weighted(0.3), prop::bool::weighted(0.3), any::<bool>(), any::<bool>(), prop_oneof![3 => Just(0u8), 2 => Just(1u8), 1 => Just(2u8), 1 => Just(3u8), 1 => Just(4u8)], prop_oneof![3 => Just(0u8), 1 => Just(1u8), 2 => Just(2u8)], prop::bool::weighted(0.15), prop_oneof![4 => Just(None), 1 => any::<u8>().prop_map(Some)], prop_oneof![4 => Just(None), 1 => any::<u8>().prop_map(Some)]),
     )
-        .prop_map(move |(k, n_samples, material, lead, tail, sites, orient, threads, (ref_is_sample, ref_rc, ref_wrap, m04, m_sel, ref_gz, twin_flanks, ref_trim))| Case {
-            k, n_samples, material, lead, tail, sites, orient, threads, with_ref, ref_is_sample, ref_rc, ref_wrap, m04, m_sel, ref_gz, twin_flanks, ref_trim,
+        .prop_map(move |(k, n_samples, material, lead, tail, sites, orient, threads, (ref_is_sample, ref_rc, ref_wrap, m04, m_sel, ref_gz, twin_flanks, ref_trim, ref_paralog))| Case {
+            k, n_samples, material, lead, tail, sites, orient, threads, with_ref, ref_is_sample, ref_rc, ref_wrap, m04, m_sel, ref_gz, twin_flanks, ref_trim, ref_paralog,
         })
         .boxed()
 }
@@ -324,7 +329,23 @@ fn check_ref(c: &Case, ctx: &Ctx) -> Outcome {
         }
         _ => 0,
     };
-    let rseq: Vec<u8> = rseq[trim..].to_vec();
+    let mut rseq: Vec<u8> = rseq[trim..].to_vec();
+    let mut paralog = false;
+    if let (Some(sel), true) = (c.ref_paralog, c.k >= 15) {
+        let q = {
+            let (p, _) = &m.sites[sel as usize % m.sites.len()];
+            (if c.ref_rc { len - 1 - p } else { *p }) - trim
+        };
+        if q >= c.k - 1 && q + 8 <= rseq.len() {
+            let piece = model::revcomp(&rseq[q - (c.k - 1)..q + 8]);
+            // a spacer of the reference's own making (no sample has it), then the inverted piece
+            let spacer: Vec<u8> = (0..c.k + 7).map(|i| model::BASES[(i * i + i / 2 + sel as usize + c.k) % 4]).collect();
+            rseq.extend(spacer);
+            rseq.extend(piece);
+            paralog = true;
+        }
+    }
+    let rseq = rseq;
     let rlen = rseq.len();
     let r: Result<(usize, usize), Outcome> = (|| {
         must_ok(&build(ctx, &dir, "x", &m.samples, c.k, true, 1), "ska build")?;
@@ -473,6 +494,7 @@ fn check_ref(c: &Case, ctx: &Ctx) -> Outcome {
             if called > 0 { cl.push("some_called"); }
             if c.ref_rc { cl.push("reference_reverse_complemented"); }
             if trim > 0 { cl.push("reference_starts_inside_the_first_site's_flank"); }
+            if paralog { cl.push("reference_with_an_inverted_partial_copy_of_a_site's_window"); }
             if c.twin_flanks && m.sites.len() >= 2 { cl.push("two_sites_with_the_same_flanks_and_disjoint_alleles"); }
             if c.ref_is_sample { cl.push("reference_is_a_sample"); }
             if c.ref_gz % 3 == 1 { cl.push("reference_gzip"); }
